@@ -17,7 +17,7 @@ case "$pkgname" in
   *) D=middleware/${pkgname%_test} ;;
 esac
 echo "== $PROP $(basename "$DIR"): demo package $pkgname -> $D"
-if ! git -C "$SCR" apply "$PATCH"; then echo "RESULT patch-does-not-apply"; exit 3; fi
+if ! git -C "$SCR" apply "$PATCH" 2>/dev/null && ! git -C "$SCR" apply --3way "$PATCH"; then echo "RESULT patch-does-not-apply"; exit 3; fi
 TOUCHED=$(git -C "$SCR" diff --name-only | xargs -n1 dirname | sort -u | sed 's|^|./|' | tr '\n' ' ')
 (cd "$SCR" && go build ./... ) || { echo "RESULT build-fails"; exit 3; }
 echo "-- existing tests of touched packages ($TOUCHED) with the change"
